@@ -118,6 +118,11 @@ func writeReplay(e *Engine, prop string, g *groupResult) replayInfo {
 		"detail":     g.Detail,
 	}
 	reproduced := false
+	if g.replayFile != "" {
+		rec["replay"] = map[string]interface{}{"reproduced": g.reproduced, "go_test_file": g.replayFile, "how": "copy the file into the named package directory as a _test.go file (or use go test -overlay) and run the named test"}
+		rec["failing_query"] = g.Name
+		reproduced = g.reproduced
+	}
 	if g.frameFn != nil {
 		rr := frameReplay(e, g)
 		rec["replay"] = rr
